@@ -237,6 +237,11 @@ def check_report(ctx, kind, card, n, in_doc):
             rec.violation("report/rank-not-warning", "rank %r" % e.rank, case)
 
 
+def _no_issue_rule(obj):
+    return
+    yield
+
+
 def check_population(ctx, kind, card, counts):
     """Several objects with the same cardinality in one document (content-equal twins below different parents
     included), one validation run: each object gets its own warning exactly when its own count is out of range."""
@@ -257,20 +262,38 @@ def check_population(ctx, kind, card, counts):
         o.parent = holder
         set_count(o, kind, n)
         objs.append(o)
-    errors = Validation(doc).errors
+    runs = [("default", Validation(doc).errors)]
+    # the same through a validation that also carries a rule of the user (registered on a plain, non-reset instance)
+    v = Validation(doc, validate=False)
+    try:
+        for klass in ("odML", "section", "property"):
+            v.register_custom_handler(klass, _no_issue_rule)
+        v.run_validation()
+        runs.append(("with-user-rule", list(v.errors)))
+    except Exception as exc:
+        rec.violation("report/validation-with-user-rule-raised-%s" % type(exc).__name__, repr(exc), case)
+    finally:
+        for klass in ("odML", "section", "property"):     # the library keeps such a rule in the shared registry: take it out again
+            Validation._handlers.get(klass, set()).discard(_no_issue_rule)
     rec.monitor("report")
-    for o, n in zip(objs, counts):
-        issues = [e for e in errors if e.obj is o and getattr(e.validation_id, "value", None) == issue_no]
-        exp = cm.violated(card, n)
-        twin = "twin" if list(counts).count(n) > 1 else "single"
-        rec.count("report", "population:%s/%s/%s" % (kind, twin, "violated" if exp else "met"))
-        if exp and not issues:
-            rec.violation("report/missing:population-%s" % twin, "%s card %r counts %r: object %d (count %d) has no issue %d" % (
-                kind, card, counts, objs.index(o), n, issue_no), case)
-        if not exp and issues:
-            rec.violation("report/spurious:population-%s" % twin, "%s card %r counts %r: %r" % (kind, card, counts, issues[0].msg), case)
-        if len(issues) > 1:
-            rec.violation("report/duplicated:population-%s" % twin, "%d issues on one object" % len(issues), case)
+    for how, errors in runs:
+        for o, n in zip(objs, counts):
+            issues = [e for e in errors if e.obj is o and getattr(e.validation_id, "value", None) == issue_no]
+            if how != "default":
+                if cm.violated(card, n) and not issues:
+                    rec.violation("report/missing:validation-with-user-rule", "%s card %r count %d: no issue %d once a user rule is registered" % (
+                        kind, card, n, issue_no), case)
+                continue
+            exp = cm.violated(card, n)
+            twin = "twin" if list(counts).count(n) > 1 else "single"
+            rec.count("report", "population:%s/%s/%s" % (kind, twin, "violated" if exp else "met"))
+            if exp and not issues:
+                rec.violation("report/missing:population-%s" % twin, "%s card %r counts %r: object %d (count %d) has no issue %d" % (
+                    kind, card, counts, objs.index(o), n, issue_no), case)
+            if not exp and issues:
+                rec.violation("report/spurious:population-%s" % twin, "%s card %r counts %r: %r" % (kind, card, counts, issues[0].msg), case)
+            if len(issues) > 1:
+                rec.violation("report/duplicated:population-%s" % twin, "%d issues on one object" % len(issues), case)
 
 
 def check_history(ctx, kind, card, steps, rng, hid):
